@@ -327,6 +327,7 @@ func minimiseSource(src string, out rtOutcome, budget *int) (string, rtOutcome) 
 
 var reQuoted = regexp.MustCompile("\"(?:[^\"\\\\]|\\\\.)*\"…?|`[^`]*`")
 var reIndex = regexp.MustCompile(`\[\d+\]`)
+var reLength = regexp.MustCompile(`length \d+ != \d+`)
 var reNum = regexp.MustCompile(`\b\d+\b`)
 
 // classOf: a key for the root cause: outcome kind, node type of the minimal failing source, normalised detail
@@ -343,6 +344,10 @@ func classOf(out rtOutcome) string {
 	case "diff":
 		d = reIndex.ReplaceAllString(d, "[]")
 		d = reQuoted.ReplaceAllString(d, "S")
+		if i := strings.Index(d, "\""); i >= 0 { // a string cut short by the length limit
+			d = d[:i] + "S != S"
+		}
+		d = reLength.ReplaceAllString(d, "length differs")
 		// keep the last two components of the path
 		if i := strings.Index(d, ": "); i > 0 {
 			path, rest := d[:i], d[i+2:]
